@@ -66,7 +66,7 @@ func tryReplay(eng *Engine, rep *FnReport, o *Obligation, r *Result, pid string)
 		rf.ArgExprs = o.Replay.Texts
 		ok := true
 		for _, t := range o.GetVals {
-			v, has := r.Model[t]
+			v, has := r.Model[strings.Trim(t, "|")]
 			if !has {
 				ok = false
 				break
